@@ -41,6 +41,9 @@ type ServeScript struct {
 	Templates int       `json:"templates"` // resource templates registered
 	ExtraTool bool      `json:"extra_tool,omitempty"`
 	Ops       []ServeOp `json:"ops"`
+	// Batch (streamable transports, protocol 2025-03-26 only): all ops are POSTed as one JSON-RPC batch; the
+	// answers come back as one JSON array (JSON mode) or as the events of one stream (SSE mode).
+	Batch bool `json:"batch,omitempty"`
 }
 
 func genServe(rt *rapid.T) ServeScript {
@@ -53,6 +56,9 @@ func genServe(rt *rapid.T) ServeScript {
 	ops := []string{"tools/list", "prompts/list", "resources/list", "resources/templates/list", "tools/call", "tools/call", "tools/call", "prompts/get", "prompts/get", "resources/read"}
 	if s.Transport == "ndjson" {
 		ops = append(ops, "sampling", "sampling-tools", "sampling-tools")
+	}
+	if s.Transport != "ndjson" && s.Version == "2025-03-26" {
+		s.Batch = rapid.Bool().Draw(rt, "batch")
 	}
 	used := map[string]bool{`"hs"`: true}
 	n := rapid.IntRange(1, 5).Draw(rt, "ops")
@@ -456,6 +462,80 @@ func serveHTTP(s ServeScript, server *mcp.Server, res *vt.Result) {
 	sessionID = ex.RespHeader().Get("Mcp-Session-Id")
 	if ex2 := post(`{"jsonrpc":"2.0","method":"notifications/initialized"}`); ex2 == nil || ex2.Status() != 202 {
 		res.Failf("harness: initialized POST failed")
+		return
+	}
+	if s.Batch {
+		var wires []string
+		for i := range s.Ops {
+			wires = append(wires, s.request(i))
+		}
+		ex := post("[" + strings.Join(wires, ",") + "]")
+		if ex == nil || ex.Status() != 200 {
+			st := -1
+			if ex != nil {
+				st = ex.Status()
+			}
+			res.Failf("batch of %d calls: POST answered HTTP %d", len(wires), st)
+			return
+		}
+		res.Class(fmt.Sprintf("http-batch:%d", len(wires)))
+		ct := ex.RespHeader().Get("Content-Type")
+		body := ex.Written()
+		var payloads []json.RawMessage
+		switch {
+		case strings.HasPrefix(ct, "text/event-stream") && s.Transport == "stream-sse":
+			for _, ev := range memhttp.ParseSSE(body) {
+				if ev.Name != "" && ev.Name != "message" {
+					continue
+				}
+				if e, err := readEnv([]byte(ev.Data)); ev.Data != "" && !(err == nil && e.HasMethod && !e.HasID) {
+					payloads = append(payloads, json.RawMessage(ev.Data))
+				}
+			}
+		case strings.HasPrefix(ct, "application/json") && s.Transport == "stream-json":
+			if len(wires) == 1 {
+				// a batch of one may be answered by the bare response or by an array of one
+				if err := json.Unmarshal(body, &payloads); err != nil {
+					payloads = []json.RawMessage{body}
+				}
+			} else if err := json.Unmarshal(body, &payloads); err != nil {
+				res.Failf("batch of %d calls: the JSON response body is not an array of messages: %v: %s", len(wires), err, body)
+				return
+			}
+		default:
+			res.Failf("batch: response Content-Type %q over %s", ct, s.Transport)
+			return
+		}
+		if len(payloads) != len(wires) {
+			res.Failf("batch of %d calls: the response carries %d messages: %s", len(wires), len(payloads), body)
+			return
+		}
+		// answers may come in any order: match them to the calls by id
+		answered := map[int]bool{}
+		for _, raw := range payloads {
+			e, err := readEnv(raw)
+			if err != nil {
+				res.Failf("batch: a response element is not a JSON-RPC message (%v): %s", err, raw)
+				return
+			}
+			hit := -1
+			for i, op := range s.Ops {
+				want := MsgModel{Kind: "result", ID: op.ID, Result: "0"}.env()
+				if !answered[i] && e.idToken() == want.idToken() && e.IDIsString == want.IDIsString {
+					hit = i
+					break
+				}
+			}
+			if hit < 0 {
+				res.Failf("batch: response %s answers none of the batch's calls (or one of them twice)", raw)
+				return
+			}
+			answered[hit] = true
+			s.checkResponse(res, hit, raw)
+			if len(res.Violations) > 0 {
+				return
+			}
+		}
 		return
 	}
 	for i, op := range s.Ops {
